@@ -9,7 +9,7 @@ SKIP = ("skip",)
 
 BINARY = ["add", "sub", "mul", "truediv", "floordiv", "mod", "divmod", "pow", "lshift", "rshift",
           "and", "or", "xor", "lt", "le", "gt", "ge", "eq", "ne"]
-UNARY = ["neg", "pos", "abs", "invert", "check_zero", "check_nonzero", "check_positive"]
+UNARY = ["neg", "pos", "abs", "invert", "check_zero", "check_nonzero", "check_positive", "copy", "deepcopy"]
 TERNARY = ["ite", "if_else", "lc_if_else"]
 CMP = {"lt": o.lt, "le": o.le, "gt": o.gt, "ge": o.ge, "eq": o.eq, "ne": o.ne}
 
@@ -58,7 +58,7 @@ def ref(name, vals, ts, cfg):
         x = int(vals[0])
         if name == "neg":
             return ("val", -x)
-        if name == "pos":
+        if name in ("pos", "copy", "deepcopy"):
             return ("val", x)
         if name == "abs":
             return ("val", abs(x))
